@@ -385,6 +385,42 @@ func c05Histories(thorough bool, f func(fam string, hist []string) bool) bool {
 	return true
 }
 
+// c05NestingBoundary: the depth at which the evaluator gives up (max depth / nesting) must not depend on whether the
+// innermost names are registers: recursion depths in a window around the first failing one, under 0..3 wrappers.
+func c05NestingBoundary(c *core.Ctx, do func(fam, src string, hist []string) bool) string {
+	prog := func(n, wrappers int) string {
+		return "func f(n) { if n <= 0 { return n }; first([f(n - 1)]) }\nprintln(" + strings.Repeat("-(", wrappers) + "f(" + fmt.Sprint(n) + ")" + strings.Repeat(")", wrappers) + ")"
+	}
+	fails := func(n int) bool {
+		r := runProgram(sessCfg{noReg: true}, prog(n, 0))
+		return r.panicked || len(r.errs) > 0
+	}
+	lo, hi := 1000, 400000
+	if !fails(hi) {
+		return ""
+	}
+	for lo+1 < hi {
+		mid := (lo + hi) / 2
+		if fails(mid) {
+			hi = mid
+		} else {
+			lo = mid
+		}
+	}
+	w := 2
+	if !c.Quick() {
+		w = 6
+	}
+	for n := hi - w; n <= hi+w; n++ {
+		for wr := 0; wr <= 3; wr++ {
+			if !do("nesting", prog(n, wr), nil) {
+				return ""
+			}
+		}
+	}
+	return fmt.Sprintf("recursion depths %d..%d (around the first depth the evaluator refuses, %d) under 0..3 extra wrappers", hi-w, hi+w, hi)
+}
+
 func runC05(c *core.Ctx) {
 	var bounds []string
 	do := func(fam, src string, hist []string) bool {
@@ -425,6 +461,28 @@ func runC05(c *core.Ctx) {
 				bounds = append(bounds, "session histories: every sequence of <=3 (thorough 4) of 8 top-level loop inputs, each input repeated 4..20 times, each followed by 3 probes")
 			}
 		}
+	}
+	// operator table: every infix and prefix operator on two integer parameters / loop variables over boundary values
+	{
+		vals := []string{"-9223372036854775807 - 1", "-8", "-1", "0", "1", "3", "63", "64", "9223372036854775807"}
+		ops := []string{"+", "-", "*", "/", "%", "<<", ">>", "&", "|", "^", "==", "!=", "<", "<=", ">", ">=", "&&", "||", ":"}
+		for _, a := range vals {
+			for _, b := range vals {
+				var exprs []string
+				for _, op := range ops {
+					exprs = append(exprs, "catch(a "+op+" b)")
+				}
+				exprs = append(exprs, "-a", "^a", "!a", "+b", "catch(a[b])", "catch([1, 2][a])", "catch(\"s\" * b)")
+				body := "[" + strings.Join(exprs, ", ") + "]"
+				do("ops", "func f(a, b) { "+body+" }\nprintln(f("+a+", "+b+"))\nprintln(f("+a+", "+b+"))", nil)
+				do("ops", "func f(a) { for b = 2 { } ; for b = ("+b+"):("+b+") { }; x = "+b+"; for i = 1 { b = x; println("+body+") } }\nf("+a+")", nil)
+			}
+		}
+		bounds = append(bounds, "every infix / prefix / index operator on two integer parameters (and a parameter with a loop variable) over all pairs of 9 boundary integers")
+	}
+	// the evaluator's own nesting bound: recursions around the depth where it strikes, with 0..3 extra wrappers
+	if nb := c05NestingBoundary(c, do); nb != "" {
+		bounds = append(bounds, nb)
 	}
 	c.P.States = c.P.Traces // every history end state is compared
 	c.P.Bound = strings.Join(bounds, "; ") + "; registers on vs off, each with cache on and off"
